@@ -9,15 +9,18 @@
 (*   "R-infinity" (r = -e/d), "other-key", "other-message", "other-curve-key",                  *)
 (*   "s-altered", "r-altered"                                  -> BadSignatureError             *)
 (*   "long-digest-no-truncate"                                 -> BadDigestError                *)
-EXTENDS Bytes, TLC, Json, IOUtils
+EXTENDS SigCodec, TLC, Json, IOUtils
 
 Trace == JsonDeserialize(IOEnv.TRACE_FILE)
 VARIABLE i
 
 InRange(v, n) == ~IsZero(v) /\ Lt(v, n)
 
+(*   "der-mutated": a damaged DER encoding of a genuine signature (bytes in e.der): if the strict decoder of     *)
+(*   SigCodec.tla rejects it the outcome must be BadSignatureError (if it still decodes, no verdict here)        *)
 Want(e) ==
-  IF e.cls = "long-digest-no-truncate" THEN "BadDigestError"
+  IF e.cls = "der-mutated" THEN (IF DecDerSig(e.der).ok THEN e.out ELSE "BadSignatureError")
+  ELSE IF e.cls = "long-digest-no-truncate" THEN "BadDigestError"
   ELSE IF ~(InRange(e.r, e.n) /\ InRange(e.s, e.n)) THEN "BadSignatureError"
   ELSE IF e.cls \in {"genuine", "low-s-twin"} THEN "True"
   ELSE "BadSignatureError"
